@@ -322,7 +322,7 @@ def slot_reuse_forgets(P, R, rule='C06.MPT.4'):
     loop."""
     cf = P.need_fn('iauth_xquery_config_service')
     reuse = [s for s in cf.stores() if s.ev['k'] == 'store' and s.ev['lhs'].get('k') == 'idx' and on_path(s.ev['lhs'], 'vec') and is_var(s.ev.get('rhs'))]
-    release = [s for f in P.unit_fns(UNIT) for s in f.stores() if s.ev['k'] == 'store' and s.ev['lhs'].get('k') == 'idx' and on_path(s.ev['lhs'], 'vec') and const_of(s.ev.get('rhs')) == 0]
+    release = core.slot_release_sites(P, UNIT)
     if not reuse:
         return      # slots are never re-assigned (C17.MPT.5 reports that on its own)
     if not release:
